@@ -8,7 +8,7 @@ export GOFLAGS=-mod=mod GOPROXY=off GOSUMDB=off GOTOOLCHAIN=local
 src=/tmp/seed-$id/SEED
 dst=/verif/seeded/$id
 mkdir -p $dst
-cp -r $src/. $dst/ 2>/dev/null
+cp -r $src/. $dst/ 2>/dev/null; find $dst -name "*_test.go" -delete
 demo=$(ls /tmp/seed-$id/*seed_demo*_test.go /tmp/seed-$id/*/*seed_demo*_test.go /tmp/seed-$id/*/*/*seed_demo*_test.go 2>/dev/null | grep -v /SEED/ | head -1)
 rel=${demo#/tmp/seed-$id/}
 [ -n "$demo" ] && cp "$demo" "$dst/seed_demo_test.go.txt"
